@@ -48,4 +48,39 @@ def haarSegW (rnd : Rat → Rat) (fac : Nat → Rat) (p : Nat → List Rat) (q :
   haarSegWith (fun _ h => (haarConvW (fac h) I W h).getD []) (fun lv x => fdrThres rnd x q (p lv))
     Generated.HAAR_LEVEL_TABLE I (some W)
 
+/-! ### one iteration of the `HaarConv` loop, as the model runs it (tied to the source text in Props/C11Src.lean) -/
+
+/-- `result[k] = result[k-1] + signal[highEnd] + signal[lowEnd] - 2*signal[k-1]` -/
+def rawUpdate (prev sHi sLo sK : Rat) : Rat := prev + sHi + sLo - 2 * sK
+
+/-- the four running sums after one iteration of the weighted branch -/
+def wStep (acc : WAcc) (sLo wLo sHi wHi sK wK : Rat) : WAcc :=
+  { lowN := acc.lowN + (sLo * wLo - sK * wK), highN := acc.highN + (sHi * wHi - sK * wK),
+    lowW := acc.lowW + (wK - wLo), highW := acc.highW + (wHi - wK) }
+
+/-- `result[k] = sqrt(h/2) * (lowNonNormed / lowWeightSum + highNonNormed / highWeightSum)` -/
+def wValue (fac : Rat) (acc : WAcc) : Rat := fac * (acc.lowN / acc.lowW + acc.highN / acc.highW)
+
+/-! ### the initial HMM of `hmm_get_model` (Generated/HmmConsts.lean), as decidable shape predicates -/
+
+def sumQ (l : List Rat) : Rat := l.foldl (· + ·) 0
+
+/-- start probabilities: a distribution, symmetric under exchanging losses and gains, every state possible, the
+middle (neutral) state strictly the likeliest -/
+def startPrefersNeutral (s : List Rat) : Bool :=
+  let mid := s.length / 2
+  decide (s.length % 2 = 1) && decide (sumQ s = 1) && (s == s.reverse) && s.all (fun x => decide (0 < x)) &&
+    (List.range s.length).all (fun i => i == mid || decide (s.getD i 0 < s.getD mid 0))
+
+/-- transition weights: square, one common diagonal value `d`, one common positive off-diagonal value `o`, and
+staying is at least `k` times as likely as any single move (`k * o <= d`) -/
+def stickyMatrix (k : Rat) (t : List (List Rat)) : Bool :=
+  let n := t.length
+  let d := (t.headD []).headD 0
+  let o := (t.headD []).getD 1 0
+  t.all (fun r => r.length == n) && decide (0 < o) && decide (k * o ≤ d) &&
+    (List.range n).all (fun i => (List.range n).all (fun j =>
+      let v := (t.getD i []).getD j 0
+      if i == j then v == d else v == o))
+
 end CnvVerif.Haar
